@@ -5,6 +5,13 @@ From TS Require Import Bytes.
 Import ListNotations.
 Open Scope Z_scope.
 
+Lemma land255 z : Z.land z 255 = z mod 256.
+Proof. change 255 with (Z.ones 8). rewrite Z.land_ones by lia. reflexivity. Qed.
+Lemma shiftr8 v : Z.shiftr v 8 = v / 256.
+Proof. rewrite Z.shiftr_div_pow2 by lia. reflexivity. Qed.
+Lemma shiftl8 a : Z.shiftl a 8 = a * 256.
+Proof. rewrite Z.shiftl_mul_pow2 by lia. reflexivity. Qed.
+
 Lemma b2z_range : forall b, 0 <= b2z b < 256.
 Proof.
   intros b. unfold b2z. pose proof (Byte.to_N_bounded b). lia.
@@ -12,14 +19,14 @@ Qed.
 
 Lemma z2b_b2z : forall b, z2b (b2z b) = b.
 Proof.
-  intros b. unfold z2b. pose proof (b2z_range b) as H.
+  intros b. unfold z2b. rewrite land255. pose proof (b2z_range b) as H.
   rewrite Z.mod_small by exact H.
   unfold b2z. rewrite N2Z.id. rewrite Byte.of_to_N. reflexivity.
 Qed.
 
 Lemma b2z_z2b : forall z, b2z (z2b z) = z mod 256.
 Proof.
-  intros z. unfold z2b, b2z.
+  intros z. unfold z2b, b2z. rewrite land255.
   assert (Hm : 0 <= z mod 256 < 256) by (apply Z.mod_pos_bound; lia).
   destruct (Byte.of_N (Z.to_N (z mod 256))) as [b|] eqn:E.
   - apply Byte.to_of_N in E. rewrite E. rewrite Z2N.id; lia.
@@ -53,7 +60,7 @@ Proof.
   unfold be_to_Z.
   induction l as [|x t IH]; intros acc.
   - simpl be_acc. rewrite blen_nil. rewrite Z.pow_0_r. lia.
-  - cbn [be_acc]. rewrite IH. rewrite (IH (0 * 256 + b2z x)).
+  - cbn [be_acc]. rewrite !shiftl8. rewrite IH. rewrite (IH (0 * 256 + b2z x)).
     rewrite blen_cons. rewrite Z.pow_add_r by (pose proof (blen_nonneg t); lia).
     rewrite Z.pow_1_r. ring.
 Qed.
@@ -84,7 +91,7 @@ Qed.
 
 Lemma be_to_Z_snoc : forall l x, be_to_Z (l ++ [x]) = be_to_Z l * 256 + b2z x.
 Proof.
-  intros. unfold be_to_Z. rewrite be_acc_app. reflexivity.
+  intros. unfold be_to_Z. rewrite be_acc_app. cbn [be_acc]. rewrite shiftl8. reflexivity.
 Qed.
 
 Lemma length_Z_to_be : forall len v, List.length (Z_to_be len v) = len.
@@ -100,7 +107,7 @@ Lemma be_to_Z_Z_to_be : forall len v, be_to_Z (Z_to_be len v) = v mod 256 ^ Z.of
 Proof.
   induction len as [|k IH]; intros v.
   - simpl. rewrite Z.mod_1_r. reflexivity.
-  - simpl Z_to_be. rewrite be_to_Z_snoc, IH, b2z_z2b.
+  - simpl Z_to_be. rewrite shiftr8. rewrite be_to_Z_snoc, IH, b2z_z2b.
     rewrite Nat2Z.inj_succ, Z.pow_succ_r by lia.
     rewrite Z.rem_mul_r by (try apply pow256_pos; lia).
     ring.
